@@ -30,9 +30,11 @@
                                                    `remove_node`), d-engine-core membership.rs
                                                    `is_single_node_cluster`  (minimal; family `memb` owns the
                                                    full membership model)
-  * `Proc`, `stop`, `crash`, `restart`             raft.rs `Drop for Raft` (the only `save_hard_state` call),
+  * `Proc`, `stop`, `crash`, `restart`             raft.rs `Drop for Raft` + mod.rs `SharedState` persister (every
+                                                   term / vote change is saved when it happens),
                                                    d-engine-server node/builder.rs (`load_hard_state` →
-                                                   `FollowerState::new`), mod.rs `SharedState::new` (term 1)
+                                                   `FollowerState::new` / `LearnerState::new_with_hard_state`),
+                                                   mod.rs `SharedState::new` (term 1)
 
   Event loop (`raft.rs run`): modelled as atomic handling of one inbound event / tick followed by the
   internal events it enqueued, in order (not verified).
@@ -205,12 +207,18 @@ def notify (n : Node) (lid : Option Nat) (term : Nat) : Node :=
   let v : Pub := lid.map (fun l => (l, term))
   if n.watch = v then n else { n with watch := v, pubs := v :: n.pubs }
 
+/-- only a vote of an older term is forgotten by a step-down (fix 65007c0; before it every vote was) -/
+def keepCurrentVote (term : Nat) (vf : Option VF) : Option VF :=
+  match vf with
+  | some v => if v.term < term then none else some v
+  | none => none
+
 /-- `InternalEvent::BecomeFollower(lid)`: `become_follower()?` fails for a follower (nothing else happens);
-    otherwise role change, `reset_voted_for`, notify `(lid, current_term)`. -/
+    otherwise role change, reset of a stale vote, notify `(lid, current_term)`. -/
 def becomeFollower (n : Node) (lid : Option Nat) : Node :=
   match n.role with
   | .follower => n
-  | _ => notify { n with role := .follower, vf := none, noopTerm := none } lid n.term
+  | _ => notify { n with role := .follower, vf := keepCurrentVote n.term n.vf, noopTerm := none } lid n.term
 
 /-- `InternalEvent::BecomeCandidate` (only a follower can) -/
 def becomeCandidate (n : Node) : Node :=
@@ -311,8 +319,8 @@ def onAppendEntries (n : Node) (t l : Nat) : Node × AeOut :=
   | .leader =>
     if n.term ≥ t then (n, .higherTerm n.term)
     else
-      -- term NOT adopted before `BecomeFollower(Some(leader_id))`
-      followerOnAE (becomeFollower n (some l)) t l
+      -- the request term is adopted before `BecomeFollower(Some(leader_id))` (fix 05b4801)
+      followerOnAE (becomeFollower { n with term := t } (some l)) t l
 
 def aeTag (n : Node) (t : Nat) : String :=
   match n.role with
@@ -378,7 +386,9 @@ deriving DecidableEq, Repr
 def Memb.voters (m : Memb) : List Nat :=
   (m.nodes.filter fun n => n.id != m.self && n.status == 3).map (·.id)
 
-def Memb.isSingleNodeCluster (m : Memb) : Bool := m.initSize == 1
+/-- `is_single_node_cluster()`: configured alone AND still without any other voter (fix 16342b6; before it
+    only `initial_cluster_size == 1`) -/
+def Memb.isSingleNodeCluster (m : Memb) : Bool := m.initSize == 1 && m.voters.isEmpty
 
 def Memb.mk' (self : Nat) (initial : List MNode) : Memb := ⟨self, initial.length, initial⟩
 
@@ -434,10 +444,11 @@ structure Proc where
   startLearner : Bool        -- `node_config.is_learner()`
 deriving Repr, Inhabited
 
-/-- `NodeBuilder::build`: `FollowerState::new(load_hard_state())` / `LearnerState::new`;
-    `SharedState::new`: no hard state ⇒ term 1, no vote. Fresh watch channel (value `None`). -/
+/-- `NodeBuilder::build`: `FollowerState::new(load_hard_state())` / `LearnerState::new_with_hard_state(..)`
+    (fix b8fde38: the learner gets the stored hard state too); `SharedState::new`: no hard state ⇒ term 1,
+    no vote. Fresh watch channel (value `None`). -/
 def bootNode (id : Nat) (learner : Bool) (image : Option Hard) (lli llt : Nat) (pubs : List Pub) : Node :=
-  let h : Hard := if learner then ⟨1, none⟩ else image.getD ⟨1, none⟩
+  let h : Hard := image.getD ⟨1, none⟩
   { id := id, role := if learner then .learner else .follower, term := h.term, vf := h.vf, leader := 0,
     lli := lli, llt := llt, watch := none, pubs := pubs, noopTerm := none }
 
@@ -445,9 +456,11 @@ def bootNode (id : Nat) (learner : Bool) (image : Option Hard) (lli llt : Nat) (
 def Proc.stop (p : Proc) : Proc :=
   if p.up then { p with up := false, image := some ⟨p.node.term, p.node.vf⟩ } else p
 
-/-- crash: no `Drop`, nothing saved -/
+/-- crash: no `Drop`. Since fix c4109f0 every mutator of `SharedState` (`update_current_term`,
+    `increase_current_term`, `reset_voted_for`, `update_voted_for`) saves the hard state when it changed, so the
+    meta store always holds the in-memory term and vote: a crash loses nothing. -/
 def Proc.crash (p : Proc) : Proc :=
-  if p.up then { p with up := false } else p
+  if p.up then { p with up := false, image := some ⟨p.node.term, p.node.vf⟩ } else p
 
 def Proc.restart (p : Proc) : Proc :=
   if p.up then p
